@@ -53,8 +53,19 @@ def flag (sh : Shared) : Prop := sh.closing = true ∨ sh.closed = true
 /-- steps that test the flags go straight on when neither flag is set -/
 theorem exec_rest_noflag (v : Variant) (t : Tid) (st : Step) (r : List Step) (sh : Shared) (c : Cur)
     (h1 : sh.closing = false) (h2 : sh.closed = false) :
-    (exec v t st r sh c).2.rest = r ∨ ((exec v t st r sh c).2.rest = toRelease r ∧ inOnly st = true) := by
+    (exec v t st r sh c).2.rest = r ∨ ((exec v t st r sh c).2.rest = toRelease r ∧ inOnly st = true) ∨
+      (∃ a, st = .brIfErr a) := by
   cases st <;> simp [exec, h1, h2, inOnly] <;> (try split) <;> simp
+
+theorem owes_noSC (r : List Step) (h : noSC r = true) : owes r = false := by
+  induction r with
+  | nil => rfl
+  | cons s r ih =>
+    simp only [noSC, List.all_cons, Bool.and_eq_true] at h
+    have h2 : noSC r = true := h.2
+    cases s with
+    | setClosing b => cases b <;> first | exact ih h2 | (have := h.1; simp at this)
+    | _ => exact ih h2
 
 structure KInv (v : Variant) (cfg : Cfg) (s : State) : Prop where
   kcur : ∀ (t : Tid) (c : Cur) (call : Call), (s.th t).current v cfg = some c → (s.th t).prog[c.idx]? = some call →
@@ -171,12 +182,17 @@ theorem kInv_stepN (env : Env) (v : Variant) (cfg : Cfg) (s : State) (t : Tid) (
             | true => exact Or.inl (flag_stable v t st r s.sh c hclear (Or.inr h2))
             | false =>
               right
-              rcases exec_rest_noflag v t st r s.sh c h1 h2 with e3 | ⟨e3, hin⟩
+              rcases exec_rest_noflag v t st r s.sh c h1 h2 with e3 | ⟨e3, hin⟩ | ⟨a, e3⟩
               · rw [e3]; exact h
               · rw [e3, owes_toRelease r]
                 · exact h
                 · have := inOnly_holds d hin
                   cases st <;> simp only [inOnly] at hin <;> first | (cases hin; done) | simpa [holds] using this
+              · -- the branch after the request write: no `close()` program contains it
+                subst e3
+                have cd : cdisc (Step.brIfErr a :: r) = true := hv ▸ I.dc t
+                simp only [cdisc, cNext, Bool.and_eq_true] at cd
+                rw [owes_noSC r cd.1.2] at h; cases h
   · rw [e]
     have hv : view v cfg (s.th t) = .write1 f :: r := by rw [view_of_current hc, hr]
     have d : disc (.write1 f :: r) = true := hv ▸ B.L.disc t
